@@ -111,6 +111,15 @@ def one(case, acc):
     acc.count('transport_' + tr)
     enc = case['enc']
     kw = {'encoding': enc, 'timeout': 20}
+    first = first_r = None
+    if enc:
+        # an earlier object with the same encoding that has sent something already (and is still alive): what it did
+        # to ITS encoder (byte order mark written, shift state) is none of the next object's business
+        from pexpect import fdpexpect as _fdp
+        first_r, fw = os.pipe()
+        first = _fdp.fdspawn(fw, encoding=enc)
+        first.send('x\xe9' if _encodable('\xe9', enc) else 'x')
+        acc.count('earlier_object_same_encoding')
     L = Link(tr, **kw)
     try:
         c = L.child
@@ -216,6 +225,12 @@ def one(case, acc):
             acc.sample({'transport': tr, 'enc': enc, 'calls': short(case['calls'], 400)})
     finally:
         L.cleanup()
+        if first is not None:
+            for fd in (first.child_fd, first_r):
+                try:
+                    os.close(fd)
+                except OSError:
+                    pass
 
 
 def unread(fd):
